@@ -91,6 +91,10 @@ pub struct RegOp {
     pub uv: u8,
     /// 0 absent selection, 1 discouraged, 2 preferred, 3 required, 4 absent+requireResidentKey
     pub rk: u8,
+    /// bit i set: the i-th parameter carries an unknown credential type (only applied to entries whose
+    /// algorithm the authenticator does not support, so that either treatment of such an entry is fine)
+    #[serde(default)]
+    pub unknown_type_mask: u8,
 }
 
 #[derive(Clone, Debug, Serialize, Deserialize, PartialEq)]
@@ -354,10 +358,11 @@ pub fn allow_list(sel: &AllowSel, model: &[ModelCred]) -> Option<Vec<PublicKeyCr
                         if model.is_empty() {
                             cer::descriptor_ty(b"no-credential-yet", *ty)
                         } else {
-                            cer::descriptor_ty(&model[idx(*k, model.len())].id, *ty)
+                            // transport hints vary with the selector (they must not influence eligibility)
+                            cer::descriptor_full(&model[idx(*k, model.len())].id, *ty, (*k % 7) as u8)
                         }
                     }
-                    IdRef::Unknown(b, ty) => cer::descriptor_ty(b, *ty),
+                    IdRef::Unknown(b, ty) => cer::descriptor_full(b, *ty, b.len() as u8),
                 })
                 .collect(),
         ),
@@ -427,7 +432,12 @@ impl<S: StoreAccess> Runner<S> {
     pub fn register(&mut self, op: &RegOp) -> Result<(), String> {
         let site = &SITES[op.site % SITES.len()];
         let before = self.store_snapshot();
-        let req = cer::creation_options(site.rp, &op.challenge, &op.user_id, &op.user_name, &op.algs, None, selection_of(op), None);
+        let mut req = cer::creation_options(site.rp, &op.challenge, &op.user_id, &op.user_name, &op.algs, None, selection_of(op), None);
+        for (i, p) in req.public_key.pub_key_cred_params.iter_mut().enumerate() {
+            if i < 8 && op.unknown_type_mask & (1 << i) != 0 && p.alg != coset::iana::Algorithm::ES256 {
+                p.ty = passkey_types::webauthn::PublicKeyCredentialType::Unknown;
+            }
+        }
         let origin = site.origin();
         let res = catch_unwind(AssertUnwindSafe(|| match &op.cd {
             CdMode::Default => block_on(self.client.register(origin, req, DefaultClientData)),
@@ -514,6 +524,10 @@ impl<S: StoreAccess> Runner<S> {
                 } else {
                     self.stats.reg_unexpected_err += 1;
                     self.stats.last_error = format!("register: {e:?}");
+                    if self.oracles.c02 && self.disc != Disc::OnlyNonDiscoverable {
+                        // the user consents, the store can hold the credential and the list has a supported entry
+                        return Err(format!("registration failed with {e:?} although the preference list {:?} (unknown-type mask {:#010b}) contains an entry the authenticator supports", op.algs, op.unknown_type_mask));
+                    }
                 }
                 if self.oracles.c02 && after != before {
                     return Err(format!("registration failed with {e:?} but the store changed"));
@@ -742,7 +756,7 @@ pub fn alg_list() -> impl Strategy<Value = Vec<i64>> {
 
 pub fn reg_op(sites: Vec<usize>) -> impl Strategy<Value = RegOp> {
     let n = sites.len();
-    (any::<u16>(), bytes(128), bytes(64), "\\PC{0,12}", alg_list(), cd_mode(), any::<u8>(), 0u8..5).prop_map(move |(s, challenge, user_id, user_name, algs, cd, uv, rk)| RegOp { site: sites[idx(s, n)], challenge, user_id, user_name, algs, cd, uv, rk })
+    (any::<u16>(), bytes(128), bytes(64), "\\PC{0,12}", alg_list(), cd_mode(), any::<u8>(), 0u8..5, prop_oneof![2 => Just(0u8), 1 => any::<u8>()]).prop_map(move |(s, challenge, user_id, user_name, algs, cd, uv, rk, unknown_type_mask)| RegOp { site: sites[idx(s, n)], challenge, user_id, user_name, algs, cd, uv, rk, unknown_type_mask })
 }
 
 pub fn allow_sel() -> impl Strategy<Value = AllowSel> {
